@@ -198,4 +198,13 @@ fn main() {
         println!("validates: {:?}", wasmparser::validate(&bytes).is_ok());
         show("S17", &bytes);
     });
+    run("S18 encode twice: data offset `global.get` is rewritten in place (C05)", || {
+        let w = wat::parse_str(r#"(module (global $l i32 (i32.const 8)) (memory 1) (data (global.get $l) "hi"))"#).unwrap();
+        let mut m = Module::parse(&w, false).unwrap();
+        m.add_imported_global("env".into(), "other".into(), DataType::I32, false, false);
+        let r1 = catch_unwind(AssertUnwindSafe(|| m.encode()));
+        let a = r1.unwrap();
+        let r2 = catch_unwind(AssertUnwindSafe(|| m.encode()));
+        match r2 { Ok(b) => { println!("same bytes: {}", a == b); show("S18 first", &a); show("S18 second", &b); }, Err(_) => { println!("second encode PANICKED"); show("S18 first", &a); } }
+    });
 }
